@@ -168,3 +168,30 @@ Definition e_comparison (c : comparison_w) : bytes :=
 (* decode::<T>(buffer): trailing bytes are ignored by binary_stream::decode *)
 Definition decode_top {A} (p : parser A) (s : bytes) : option A :=
   match p s with Some (a, _) => Some a | None => None end.
+
+(* A set / map field (SecretMeta tags: HashSet<String>; Secret::List items: HashMap) written by
+   vault/src/encoding/secret.rs: a u32 count, then the elements.  Since the fix 'secret tags and
+   list items are encoded in sorted order' the elements are written sorted ([canon] = insertion
+   sort by the element order); before it they were written in the container's iteration order
+   ([e_seq] over whatever order [l] has). *)
+Section CanonSet.
+Variable A : Type.
+Variable leb : A -> A -> bool.
+Variable e : A -> bytes.
+Fixpoint ins (x : A) (l : list A) : list A :=
+  match l with [] => [x] | y :: r => if leb x y then x :: l else y :: ins x r end.
+Definition canon (l : list A) : list A := fold_right ins [] l.
+Definition e_seq (l : list A) : bytes := e_vec e l.
+Definition e_set (l : list A) : bytes := e_seq (canon l).
+End CanonSet.
+(* the element order of tags: Rust's String order = lexicographic on the UTF-8 bytes, a proper prefix first *)
+Fixpoint bytes_leb (a b : bytes) : bool :=
+  match a, b with
+  | [], _ => true
+  | _ :: _, [] => false
+  | x :: a', y :: b' => if x <? y then true else if x =? y then bytes_leb a' b' else false
+  end.
+Definition e_tagset (l : list bytes) : bytes := e_set bytes bytes_leb e_bytes32 l.
+(* decode a u32-counted list of strings in any order, write it as the tag field *)
+Definition tagset_reencode (b : bytes) : option bytes :=
+  match p_vec p_str b with Some (l, _) => Some (e_tagset l) | None => None end.
